@@ -28,6 +28,19 @@ pub fn check_string(sh: &Shared, c: &SCase) -> Check {
     sh.watch(|| json!({"stream": "strings", "case": c}));
     sh.eval();
     sh.class(&format!("source/{}", c.class));
+    // stand-alone truth / budget parsers: an Ok value is in range too
+    if let Ok(Ok(t)) = guard(|| f.parse::<narsese::enum_narsese::Truth>(s)) {
+        sh.class("outcome/side-door-truth-ok");
+        if let Err(e) = wf::truth_wf(&t) {
+            fail!("ill-formed:truth-parser", "format {}\ninput {s:?}\nparse::<Truth> returned Ok, but: {e}", fmts::FMT_NAMES[fi]);
+        }
+    }
+    if let Ok(Ok(b)) = guard(|| f.parse::<narsese::enum_narsese::Budget>(s)) {
+        sh.class("outcome/side-door-budget-ok");
+        if let Err(e) = wf::budget_wf(&b) {
+            fail!("ill-formed:budget-parser", "format {}\ninput {s:?}\nparse::<Budget> returned Ok, but: {e}", fmts::FMT_NAMES[fi]);
+        }
+    }
     let r = guard(|| f.parse::<Narsese>(s));
     sh.unwatch();
     let v = match r {
